@@ -21,10 +21,19 @@ func init() {
 			return ex.fpRaw(smt.SFP, head, x)
 		}
 	}
-	reg("math.Abs", fp1("fp.abs", math.Abs))
-	reg("math.Ceil", fp1("fp.roundToIntegral RTP", math.Ceil))
-	reg("math.Floor", fp1("fp.roundToIntegral RTN", math.Floor))
-	reg("math.Trunc", fp1("fp.roundToIntegral RTZ", math.Trunc))
+	fp1s := func(f func(float64) float64, g func(ex *Exec, x *smt.Term) *smt.Term) modelFunc {
+		return func(ex *Exec, fr *frame, pos token.Pos, args []value) value {
+			x := args[0].(*smt.Term)
+			if c, ok := fpConstVal(x); ok {
+				return ex.fpConst(f(c))
+			}
+			return g(ex, x)
+		}
+	}
+	reg("math.Abs", fp1s(math.Abs, func(ex *Exec, x *smt.Term) *smt.Term { return ex.fpAbs(x) }))
+	reg("math.Ceil", fp1s(math.Ceil, func(ex *Exec, x *smt.Term) *smt.Term { return ex.fpRound(x, 1) }))
+	reg("math.Floor", fp1s(math.Floor, func(ex *Exec, x *smt.Term) *smt.Term { return ex.fpRound(x, -1) }))
+	reg("math.Trunc", fp1s(math.Trunc, func(ex *Exec, x *smt.Term) *smt.Term { return ex.fpRound(x, 0) }))
 	reg("math.Sqrt", fp1("fp.sqrt RNE", math.Sqrt))
 	reg("math.IsNaN", func(ex *Exec, fr *frame, pos token.Pos, args []value) value {
 		return ex.fpIsNaN(args[0].(*smt.Term))
@@ -66,8 +75,8 @@ func init() {
 		b := ex.b
 		zero := ex.fpConst(0)
 		isNaN := ex.fpIsNaN(x)
-		neg := ex.fpRaw(smt.SBool, "fp.lt", x, zero)
-		isZero := ex.fpRaw(smt.SBool, "fp.isZero", x)
+		neg := ex.fpBinop(fr, pos, token.LSS, x, zero)
+		isZero := ex.fpBinop(fr, pos, token.EQL, x, zero)
 		posInf := b.And(ex.fpIsInf(x), ex.fpRaw(smt.SBool, "fp.isPositive", x))
 		// Log(+Inf)=+Inf, Log(0)=-Inf, Log(x<0)=NaN, Log(NaN)=NaN, otherwise finite
 		ex.assume(b.Ite(b.Or(isNaN, neg), ex.fpIsNaN(r),
@@ -101,6 +110,11 @@ func init() {
 					}
 					return ex.fpConst(f)
 				}
+			}
+		}
+		if ex.exactFloat {
+			if r := ex.exactDecimalFloat(d); r != nil {
+				return r
 			}
 		}
 		r := ex.freshFP("decimal.InexactFloat64")
@@ -150,4 +164,117 @@ func init() {
 		}
 		panic(ex.unsupported("math.Float64bits of a symbolic float"))
 	})
+}
+
+// exactDecimalFloat is the correctly rounded (nearest-even) float64 of the decimal n*10^exp for a symbolic
+// coefficient n with known bounds and a concrete exponent: big.Rat.Float64, which decimal.InexactFloat64 calls.
+// The sign and the binade e (2^e <= |x| < 2^(e+1)) are decided by forking (binary search with linear tests), the
+// 53-bit significand m is an Int constrained by 2*|num - m*den| <= den with ties to even, and the float is
+// assembled from its fields. nil when the value may leave the normal range or the bounds are unknown.
+func (ex *Exec) exactDecimalFloat(d structure) *smt.Term {
+	b := ex.b
+	bn, ok := (*d[0].(*value)).(BigV)
+	if !ok {
+		return nil
+	}
+	n := bn.t
+	ec, isE := d[1].(*smt.Term).ConstInt()
+	if !isE || !ec.IsInt64() || ec.Int64() < -60 || ec.Int64() > 60 || n.Lo == nil || n.Hi == nil {
+		return nil
+	}
+	exp := int(ec.Int64())
+	amax := new(big.Int).Abs(n.Lo)
+	if h := new(big.Int).Abs(n.Hi); h.Cmp(amax) > 0 {
+		amax = h
+	}
+	if amax.BitLen() > 400 {
+		return nil
+	}
+	sgn := ex.decide("float-sign", []*smt.Term{b.Lt(n, ex.k(0)), b.Eq(n, ex.k(0)), b.Lt(ex.k(0), n)})
+	if sgn == 1 {
+		return ex.fpConst(0)
+	}
+	a := n
+	if sgn == 0 {
+		a = b.Neg(n)
+	}
+	// |x| = a*pn/q
+	pn, q := big.NewInt(1), big.NewInt(1)
+	ten := big.NewInt(10)
+	if exp >= 0 {
+		pn.Exp(ten, big.NewInt(int64(exp)), nil)
+	} else {
+		q.Exp(ten, big.NewInt(int64(-exp)), nil)
+	}
+	// geq(k): |x| >= 2^k
+	geq := func(k int) *smt.Term {
+		l, r := new(big.Int).Set(pn), new(big.Int).Set(q)
+		if k >= 0 {
+			r.Lsh(r, uint(k))
+		} else {
+			l.Lsh(l, uint(-k))
+		}
+		return b.Ge(b.Mul(a, b.Int(l)), b.Int(r))
+	}
+	// binade range from the bounds: a in [1, amax]
+	log2floor := func(num, den *big.Int) int { // floor(log2(num/den))
+		k := num.BitLen() - den.BitLen()
+		l, r := new(big.Int).Set(num), new(big.Int).Set(den)
+		if k >= 0 {
+			r.Lsh(r, uint(k))
+		} else {
+			l.Lsh(l, uint(-k))
+		}
+		if l.Cmp(r) < 0 {
+			k--
+		}
+		return k
+	}
+	lo := log2floor(pn, q)
+	hi := log2floor(new(big.Int).Mul(amax, pn), q)
+	for lo < hi {
+		mid := (lo + hi + 1) / 2
+		if ex.branch("float-binade", geq(mid)) {
+			lo = mid
+		} else {
+			hi = mid - 1
+		}
+	}
+	e := lo
+	if e < -1000 || e > 1000 {
+		return nil
+	}
+	// m = RNE(a*pn*2^(52-e)/q)
+	num, den := new(big.Int).Set(pn), new(big.Int).Set(q)
+	if 52-e >= 0 {
+		num.Lsh(num, uint(52-e))
+	} else {
+		den.Lsh(den, uint(e-52))
+	}
+	ex.fpSeq++
+	m := b.Var(fmt.Sprintf("decimal.InexactFloat64.m!%d", ex.fpSeq), smt.SInt, smt.Pow2(52), smt.Pow2(53))
+	if ex.solver != nil {
+		ex.solver.Declare(m)
+		ex.solver.AssertRange(m)
+	}
+	num2 := b.Mul(a, b.Int(new(big.Int).Lsh(num, 1))) // 2*a*num
+	md2 := b.Mul(m, b.Int(new(big.Int).Lsh(den, 1)))  // 2*m*den
+	dt := b.Int(den)
+	ex.assume(b.Le(b.Sub(num2, dt), md2))
+	ex.assume(b.Le(md2, b.Add(num2, dt)))
+	tie := b.Or(b.Eq(md2, b.Add(num2, dt)), b.Eq(md2, b.Sub(num2, dt)))
+	ex.assume(b.Implies(tie, b.Eq(b.Mod(m, ex.k(2)), ex.k(0))))
+	carry := b.Eq(m, b.Int(smt.Pow2(53)))
+	be := b.Ite(carry, ex.k(int64(e+1+1023)), ex.k(int64(e+1023)))
+	mant := b.Ite(carry, ex.k(0), b.Sub(m, b.Int(smt.Pow2(52))))
+	r := b.Raw(smt.SFP, "fpparts", b.Bool(sgn == 0), be, mant)
+	// value = ±m * 2^(e-52)
+	sm := m
+	if sgn == 0 {
+		sm = b.Neg(m)
+	}
+	if e-52 >= 0 {
+		return ex.setShadow(r, fpShadow{b.Mul(sm, b.Int(smt.Pow2(uint(e-52)))), 0})
+	}
+	return ex.setShadow(r, fpShadow{sm, uint(52 - e)})
 }
